@@ -259,7 +259,8 @@ class Chain:
 
     def _ref(self, ln):
         i = self._id()
-        self.g.add_seg(i, _seq(ln, self._n), [("LN", "i", str(ln)), ("SN", "Z", self.chrom), ("SO", "i", str(self._so)), ("SR", "i", "0")])
+        # a trailing tag that sorts first, so that a writer reordering the tags is noticed
+        self.g.add_seg(i, _seq(ln, self._n), [("LN", "i", str(ln)), ("SN", "Z", self.chrom), ("SO", "i", str(self._so)), ("SR", "i", "0"), ("AA", "Z", f"n:{self._n}")])
         self._so += ln
         return i
 
